@@ -77,3 +77,33 @@ contract("C18.restore_backup",
                         "forall_str(lambda p: implies(p in fs_copied, any(p == data_files[k] for k in range(_n))))",
                         "implies(len(task_names) == 0, all(data_files[k] in fs_copied for k in range(_n)))",
                     ]}})
+
+# C18 "remodeling always starts from the backup": with a backup manager, the table is read from the backup copy of the named file and from
+# nowhere else; a file without a backed-up original is an error (HedFileError), never silently read from the working copy
+from pyvc.contract import EXTERNS as _EX18
+class_model("DispatcherB", {"backup_man": "Opt[BackupManager]", "backup_name": "Str"})
+
+
+def _read_csv(interp, args, kwargs):
+    """pd.read_csv(path, ...): the path read is recorded (ghost read_path); it may fail for a missing / malformed file"""
+    from pyvc.vals import Opaque
+    import z3 as _z
+    ctx = interp.ctx
+    ctx.ghost["read_path"] = args[0]
+    ctx.ghost["reads"] = ctx.ghost.get("reads", 0) + 1 if isinstance(ctx.ghost.get("reads", 0), int) else ctx.ghost["reads"]
+    ctx.may_raise(_z.Bool(ctx.fresh_name("read_fails")), "Exception", "pd.read_csv")
+    return Opaque("DataFrame", fresh=True)
+
+
+_EX18["pd.read_csv"] = _read_csv
+_EX18["pandas.read_csv"] = _read_csv
+contract("C18.get_data_file", file="hed/tools/remodeling/dispatcher.py", func="Dispatcher.get_data_file",
+         params={"self": "DispatcherB", "file_designator": "Str"}, returns="Opaque", enc="native", self_class="DispatcherB",
+         raises={"HedFileError": "True"},
+         ghost={"init": {"read_path": "''"}},
+         ensures={
+             "C18.remodel.reads_the_backup_copy_only": "implies(self.backup_man is not None, read_path == backup_path_of(self.backup_man.backups_path,"
+                                                       " self.backup_name, file_key_of(self.backup_man.data_root, file_designator)))",
+             "C18.remodel.reads_the_named_file_without_backups": "implies(self.backup_man is None, read_path == file_designator)",
+         },
+         assume=["only the path form of file_designator is covered (a DataFrame is copied)"])
